@@ -1,5 +1,5 @@
 import JsightVerif.Model.Catalog
-import JsightVerif.Proofs.BuildProps
+import JsightVerif.Proofs.BuildClosure
 /-
   C05 — names are unique, cross references are closed (registry level).
   Theorems about the insertion-ordered registries of the catalog and the tag bookkeeping
@@ -152,9 +152,25 @@ open JsightVerif.Model JsightVerif.Model.Build JsightVerif.Gen
 theorem C05_interaction_ids_unique (roots : List DT) (rootFile : Bytes) (banned : List Kind)
     (content : Bytes → Bytes) (b : Built) (h : build roots rootFile banned content = .ok b) :
     (ids b.cat).Nodup := by
-  obtain ⟨_, _, _, _, tags, enums, s, _, _, _, hadd, hc⟩ := build_stages roots rootFile banned content b h
+  obtain ⟨_, _, _, _, tags, enums, s, _, _, _, _, hadd, hc⟩ := build_stages roots rootFile banned content b h
   rw [hc]
   exact addList_nodup content b.expanded [] b.expanded [] _ s (by simp) hadd
+
+/-- **C05 (reference closure, tied model)**: in every accepted project every tag named by an
+    interaction exists in the catalog and lists that interaction, and — vice versa — every interaction
+    listed by a tag exists in the catalog and names that tag. -/
+theorem C05_tags_closed (roots : List DT) (rootFile : Bytes) (banned : List Kind)
+    (content : Bytes → Bytes) (b : Built) (h : build roots rootFile banned content = .ok b) :
+    (∀ i ∈ b.cat.inters, ∀ t ∈ i.tags, ∃ te ∈ b.cat.tags, te.name = t ∧ i.id ∈ te.members) ∧
+    (∀ te ∈ b.cat.tags, ∀ x ∈ te.members, ∃ i ∈ b.cat.inters, i.id = x ∧ te.name ∈ i.tags) := by
+  obtain ⟨_, _, _, _, tags, enums, s, _, _, _, htags, hadd, hc⟩ := build_stages roots rootFile banned content b h
+  rw [hc]
+  constructor
+  · exact addList_closed content b.expanded [] b.expanded [] _ s (by intro i hi; cases hi) hadd
+  · refine addList_back content b.expanded [] b.expanded [] _ s ?_ hadd
+    intro te hte x hx
+    have := collectTags_empty b.expanded [] tags (by intro te h; cases h) htags te hte
+    rw [this] at hx; cases hx
 
 end Tied
 
